@@ -9,7 +9,11 @@
     the implementation: canonical/boundary => accepted, malformed / out-of-range / NaN /
     infinities (ranged rules) => rejected with a content error, the same in both modes;
     lenient spellings (digit separators, padding, non-ASCII digits, compact ISO forms,
-    values that round onto a boundary) are only logged."""
+    values that round onto a boundary) are only logged;
+(H) statelessness (an assumption of the theorems: the model is a pure function of rule and node): every case is
+    repeated with a long-lived Rule instance, a node object edited in place, a long-lived error list that is
+    never empty, and a second collecting call; and typed leaves are validated inside small trees whose earlier
+    nodes already produced errors (validate.tree shares one list) - all must agree with the fresh result."""
 import math
 import re
 import unicodedata
@@ -362,6 +366,49 @@ def first_child(rj):
     return ns[0] if ns else None
 
 
+
+# ------------------------------------------------------------------ history sensitivity (statelessness)
+class Reused:
+    """Objects a caller may keep across calls: one Rule instance, one node edited in place, one
+    error list that is never empty (it starts with another node's entries)."""
+
+    def __init__(self, rname, attrs, kidnames):
+        from metapype.eml import rule as R
+        from harness import vtrees as VT
+        self.rule = R.Rule(rname)
+        self.node = RL.build_node("x", None, attrs, kidnames)
+        self.errs = VT.foreign_entries()
+
+    def observe(self, content):
+        """(ff, codes) with the long-lived Rule and node and a fresh list; codes appended to the long-lived
+        non-empty list; codes of a second collecting call."""
+        fam = RL._family()
+        self.node.content = content
+
+        def collect(errs):
+            n0 = len(errs)
+            try:
+                self.rule.validate_rule(self.node, errs)
+                return [RL.entry_code(e) for e in errs[n0:]]
+            except Exception as e:  # noqa
+                return [RL.entry_code(x) for x in errs[n0:]] + ["CRASH:" + type(e).__name__]
+        first = collect([])
+        try:
+            self.rule.validate_rule(self.node)
+            ff = "OK"
+        except fam as e:
+            ff = type(e).__name__
+        except Exception as e:  # noqa
+            ff = "CRASH:" + type(e).__name__
+        shared = collect(self.errs)
+        again = collect([])
+        return ff, first, shared, again
+
+
+def typed_leaf_tree(rng, leaves):
+    """An unknown root (so the error list is non-empty before any leaf is reached) over typed leaves."""
+    return ["zzUnknownRoot", None, [], [[name, content, [list(a) for a in attrs], []] for name, attrs, content in leaves]]
+
 CONTENT_CODES = ("CONTENT_", "UNKNOWN_CONTENT_RULE")
 CONTENT_CLASSES = ("MetapypeRuleError", "StrContentUnicodeError", "ContentExpectedUriError")
 
@@ -379,6 +426,7 @@ def run(ctx):
                          "get a reduced pool in the quick tier; mixed-content rules are also run with a child standing in for text; "
                          "non-trivial = distinct (content-section, content, has-children) with a content string present" % nrand)
     cases, wants, meta = [], [], []
+    reused = {}
     seen_sections = {}
     lenient_log = {}
     for rname, rj in rules.items():
@@ -429,11 +477,74 @@ def run(ctx):
                     lenient_log.setdefault(cls, [])
                     if len(lenient_log[cls]) < 6 and content not in [x[0] for x in lenient_log[cls]]:
                         lenient_log[cls].append((content, "accepted" if not ccodes else "rejected"))
+                # (H) the same Rule instance, the same node edited in place, a non-empty long-lived list
+                rk = (rname, tuple(kidnames))
+                if rk not in reused:
+                    reused[rk] = Reused(rname, attrs, kidnames)
+                hff, hfirst, hshared, hagain = reused[rk].observe(content)
+                ctx.count("history_observations")
+                for label, got, want in (("reused-rule-and-node/collect", hfirst, codes), ("reused-rule-and-node/fail-fast", hff, ff),
+                                         ("non-empty-error-list", hshared, codes), ("collect-again", hagain, codes)):
+                    if got != want:
+                        hccodes = [c for c in got if isinstance(c, str) and c.startswith(CONTENT_CODES)] if isinstance(got, list) else None
+                        what = f"content validation depends on history ({label}): got {got}, a fresh Rule/node/list gives {want}"
+                        if verdict == REJECT and hccodes == []:
+                            what = f"content violating the constraints was not reported ({label}): got {got}; " + what
+                        ctx.fail(f"C02:history:{label}:{rname}:{cls}", what, dict(rep, history=label, observed_with_history=got, observed_fresh=want))
                 cases.append(RL.coq_rncase(rname, "x", content, attrs, kidnames))
                 wants.append(RL.coq_outcome((ff, codes)))
                 meta.append(rep)
                 if content is not None and verdict != LENIENT:
                     ctx.sample({"rule": rname, "content": content, "class": cls, "expected": verdict, "observed_ff": ff, "observed_codes": codes}, limit=8)
+    # whole small trees: typed leaves under one root; an earlier node errs, so every later leaf is validated
+    # with an error list that is already non-empty (validate.tree shares one list)
+    from metapype.eml import validate
+    from metapype.model.node import Node
+    from harness import vtrees as VT
+    typed_names = {}
+    for name, rname in R.node_mappings.items():
+        rj = rules.get(rname)
+        if rj and rj[2].get("content_rules") not in (["emptyContent"], ["strContent"]) and rname not in mixed_names:
+            typed_names.setdefault(rname, (name, skeleton(rj)[0], rj))
+    typed_list = sorted(typed_names.values(), key=lambda x: x[0])
+    for i in range(600 if thorough else 150):
+        leaves = []
+        for _ in range(ctx.rng.randrange(2, 6)):
+            name, attrs, rj = ctx.rng.choice(typed_list)
+            crs = rj[2]["content_rules"]
+            lp = pool_for(ctx, crs, rj[2].get("content_enum") if "content_enum" in rj[2] else None, 1)
+            leaves.append((name, attrs, ctx.rng.choice(lp)))
+        tt = typed_leaf_tree(ctx.rng, leaves)
+        root = RL.build_tree(tt)
+        errs = []
+        raised = None
+        try:
+            validate.tree(root, errs)
+        except Exception as e:  # noqa
+            raised = type(e).__name__
+        ctx.case(repr(tt), True)
+        ctx.count("typed_leaf_trees")
+        rep = {"kind": "impl-vs-statement", "call": "validate.tree(root, errs)", "tree": tt,
+               "observed_codes": [[RL.entry_code(e), e[2].name if len(e) > 2 else None] for e in errs], "raised": raised}
+        if raised:
+            ctx.fail("C02:tree:crash", f"collecting validation of a small tree raised {raised}", rep)
+        for k, (name, attrs, content) in enumerate(leaves):
+            rj = rules[R.node_mappings[name]]
+            verdict, cls = expected(rj[2]["content_rules"], rj[2].get("content_enum") if "content_enum" in rj[2] else None, False, content, 0)
+            leaf = root.children[k]
+            got = [RL.entry_code(e) for e in errs if len(e) > 2 and e[2] is leaf and RL.entry_code(e).startswith(CONTENT_CODES)]
+            alone = RL.impl_node(name, content, attrs, [])[1]
+            alone_c = [c for c in alone if c.startswith(CONTENT_CODES)]
+            if verdict == REJECT and not got:
+                ctx.fail(f"C02:tree:accepted:{cls}", f"in a tree whose earlier nodes already produced errors, <{name}> content {content!r} violating its constraints was not reported",
+                         dict(rep, leaf_index=k, leaf=name, content=content, expected=verdict, **{"class": cls}))
+            elif verdict == ACCEPT and got:
+                ctx.fail(f"C02:tree:rejected:{cls}", f"in a tree, <{name}> content {content!r} that its constraints allow was reported: {got}",
+                         dict(rep, leaf_index=k, leaf=name, content=content, expected=verdict, **{"class": cls}))
+            elif got != alone_c:
+                ctx.fail(f"C02:tree:history:{cls}", f"<{name}> content {content!r}: inside a tree {got}, validated alone {alone_c}",
+                         dict(rep, leaf_index=k, leaf=name, content=content, **{"class": cls}))
+        Node.store.clear()
     # random content sections installed as rules (names and combinations the shipped table does not have,
     # unknown content-rule names, enumerations, mixed flag): model correspondence + the same statement
     IMPLEMENTED = ["emptyContent", "floatContent", "floatRangeContent_EW", "floatRangeContent_NS", "floatContent_Nonnegative", "intContent",
@@ -505,6 +616,32 @@ def replay(ctx, data):
     if r.get("kind") != "impl-vs-statement":
         print(json.dumps(data, indent=1)[:4000])
         return run(ctx)
+    if "history" in r and "rule" in r:
+        attrs = [tuple(a) for a in r["attributes"]]
+        ff, codes = RL.impl_named_rule(r["rule"], "x", r["content"], attrs, r["children"])
+        h = Reused(r["rule"], attrs, r["children"])
+        h.observe("x")
+        hff, hfirst, hshared, hagain = h.observe(r["content"])
+        print(f"fresh: ff={ff} codes={codes}; reused Rule/node: ff={hff} codes={hfirst}; non-empty list: {hshared}; again: {hagain}")
+        ctx.case()
+        if (hff, hfirst, hshared, hagain) != (ff, codes, codes, codes):
+            ctx.fail(data.get("key", "C02:history"), data.get("what", "content validation depends on history"),
+                     dict(r, observed_with_history=[hff, hfirst, hshared, hagain], observed_fresh=[ff, codes]))
+        return
+    if "tree" in r:
+        from metapype.eml import validate
+        root = RL.build_tree(r["tree"])
+        errs = []
+        validate.tree(root, errs)
+        k = r.get("leaf_index", 0)
+        leaf = root.children[k]
+        got = [RL.entry_code(e) for e in errs if e[2] is leaf and RL.entry_code(e).startswith(CONTENT_CODES)]
+        alone = [c for c in RL.impl_node(r["leaf"], r["content"], [tuple(a) for a in r["tree"][3][k][2]], [])[1] if c.startswith(CONTENT_CODES)]
+        print(f"<{r['leaf']}> content {r['content']!r}: inside the tree {got}; validated alone {alone}; expected {r.get('expected')}")
+        ctx.case()
+        if got != alone or (r.get("expected") == REJECT and not got) or (r.get("expected") == ACCEPT and got):
+            ctx.fail(data.get("key", "C02:tree"), data.get("what", "content verdict inside a tree contradicts the statement"), r)
+        return
     if "installed_rule" in r:
         ff, codes = RL.impl_rule(r["installed_rule"], r["mixed"], "x", r["content"], [], r["children"])
         crs, enum = r["installed_rule"][2]["content_rules"], r["installed_rule"][2].get("content_enum")
